@@ -273,6 +273,16 @@ impl UperWriter {
         self.bits.into()
     }
 
+    /// The content of this writer as the value of an open type field: an empty encoding (NULL,
+    /// empty SEQUENCE) is represented by a single zero octet (ITU-T X.691, 11.1 / 11.2)
+    fn open_type_content(&self) -> &[u8] {
+        if self.bits.content().is_empty() {
+            &[0x00]
+        } else {
+            self.bits.content()
+        }
+    }
+
     pub fn as_reader(&self) -> UperReader<Bits> {
         UperReader::from(Bits::from((self.byte_content(), self.bit_len())))
     }
@@ -328,7 +338,7 @@ impl UperWriter {
             let mut writer = UperWriter::with_capacity(512);
             let result = f(&mut writer)?;
             self.bits
-                .write_octetstring(None, None, false, writer.bits.content())?;
+                .write_octetstring(None, None, false, writer.open_type_content())?;
             Ok(result)
         } else {
             f(self)
@@ -487,7 +497,7 @@ impl Writer for UperWriter {
                 let mut writer = UperWriter::with_capacity(512);
                 choice.write_content(&mut writer)?;
                 w.bits
-                    .write_octetstring(None, None, false, writer.byte_content())
+                    .write_octetstring(None, None, false, writer.open_type_content())
             } else {
                 choice.write_content(w)
             }
